@@ -27,7 +27,8 @@ RULE = ("exhaustive: every class in the Message subclass closure + unknown comma
         "Session-Id/Proxy-Info; distinct by (class, flags, ids, mode).")
 ASSUME = ["expected answer class: for a class named <N>Request the subclass named <N>Answer of its ancestor named <N> (that ancestor itself if no such subclass, the generic Message if no such ancestor); any other class answers with its own class (as Message.to_answer documents)",
           "node/application answer helpers are exercised on typed requests only (their documented precondition)",
-          "a Node object is constructed but never started for the helper clause"]
+          "a Node object is constructed but never started for the helper clause; the connection passed to Node._generate_answer is a stand-in object "
+          "with the attributes of a ready connection of a configured peer of another realm"]
 
 IDS = [(1, 0, 0, 0), (1, 0xffffffff, 0xffffffff, 0xffffffff), (1, 16777238, 0x80000000, 1),
        (0, 4, 0x7fffffff, 0x01020304), (255, 1, 2, 3)]
@@ -140,7 +141,7 @@ def check_helpers(K, with_sid, with_pi, flags, ids, rec: Recorder, node, apps):
         req_tree = R.parse_message(req.as_bytes(), R.dict_is_grouped)[1]
         try:
             if how == "node":
-                ans = node._generate_answer(None, req)
+                ans = node._generate_answer(node._verif_conn, req)
             else:
                 ans = apps[how].generate_answer(req, result_code=2001, error_message="ok")
             out = ans.as_bytes()
@@ -191,6 +192,14 @@ def make_node_and_apps():
             "app-acct": Application(3, is_acct_application=True)}
     for a in apps.values():
         a._node = node
+    # a configured peer of ANOTHER realm with a (stand-in) ready connection: answers generated for requests
+    # that arrived on it must still carry the node's own identity
+    import types
+    peer = node.add_peer("aaa://peer1.other.example", "other.realm", ip_addresses=["10.1.1.1"])
+    conn = types.SimpleNamespace(ident="0a0b0c0d0e0f", node_name="peer1.other.example", host_identity="peer1.other.example",
+                                 origin_host="verif.node.example", state=0x12, auth_application_ids=[4], acct_application_ids=[3])
+    peer.connection = conn
+    node._verif_conn = conn
     return node, apps
 
 
